@@ -26,7 +26,7 @@ var commentTexts = []string{
 }
 
 var dqTexts = []string{
-	`"a b"`, `""`, `"x"`, `"a \"q\" b"`, `"{ }"`, `"# not comment"`, "\"multi\nline\"", "\"  lead and trail  \"", `"a\\b"`, `"<<EOF"`,
+	`"a b"`, `""`, `"x"`, `"a \"q\" b"`, `"{ }"`, `"# not comment"`, "\"multi\nline\"", "\"  lead and trail  \"", `"a\\b"`, `"<<EOF"`, `"esc \"  two blanks"`,
 	"\"a\n\tb {\n}\"", `"\n"`, `"{x}"`, `"a\ b"`, "\"tab\there\"",
 }
 
